@@ -20,7 +20,7 @@ META = {
                    "operands are not written (one named exception: the final rescale of amen_divide's own cores). Does NOT decide the accuracy "
                    "of the quotient (inherits the convergence behaviour of AMEn).",
     "assumptions": ["real operands", "generic sizes: rank families at different positions / of different trains are independent"],
-    "floors": {"ENRICH-WIDTH": 1, "ZERO-NORM": 6, "ROUTING": 3, "E5-CHAIN": 12, "IFACE-TYPE": 28, "DEF-ATTR": 6},
+    "floors": {"EXACT-DIV": 2, "SCALE-FREE": 2, "ENRICH-WIDTH": 1, "ZERO-NORM": 6, "ROUTING": 3, "E5-CHAIN": 12, "IFACE-TYPE": 28, "DEF-ATTR": 6},
 }
 ANCHORS = ["_division.amen_divide", "_division.local_product", "_division.LinearOp.matvec", "_division.LinearOp.apply_prec", "_division.compute_phi_fwd_A",
            "_division.compute_phi_bck_A", "_division.compute_phi_fwd_rhs", "_division.compute_phi_bck_rhs", "_tt_base.TT.__truediv__",
@@ -99,10 +99,83 @@ def _is_metadata_read(root, attr_node):
     return False
 
 
+def _recip_exprs(fn: ast.AST, scalar: str):
+    """expressions that are the reciprocal of `scalar`: 1/scalar, scalar**-1, reciprocal(scalar), and locals bound once to one"""
+    def is_recip(e, names):
+        if isinstance(e, ast.Name):
+            return e.id in names
+        if isinstance(e, ast.BinOp) and isinstance(e.op, ast.Div) and isinstance(e.left, ast.Constant) and e.left.value in (1, 1.0) \
+                and any(isinstance(x, ast.Name) and x.id == scalar for x in ast.walk(e.right)):
+            return True
+        if isinstance(e, ast.BinOp) and isinstance(e.op, ast.Pow) and isinstance(e.left, ast.Name) and e.left.id == scalar \
+                and isinstance(e.right, ast.UnaryOp) and isinstance(e.right.op, ast.USub) and isinstance(e.right.operand, ast.Constant) and e.right.operand.value == 1:
+            return True
+        if isinstance(e, ast.Call) and norm(e.func).endswith("reciprocal") and any(isinstance(x, ast.Name) and x.id == scalar for a in e.args for x in ast.walk(a)):
+            return True
+        return False
+    names = set()
+    for _ in range(2):
+        for n in ast.walk(fn):
+            if isinstance(n, ast.Assign) and len(n.targets) == 1 and isinstance(n.targets[0], ast.Name) and is_recip(n.value, names):
+                names.add(n.targets[0].id)
+    return lambda e: is_recip(e, names)
+
+
+def rule_recip(model: Model, fn_node=None, where=None):
+    """EXACT-DIV: 'dividing by a scalar is exact' - the quotient core is ONE correctly rounded division core / scalar.  Multiplying by a
+    reciprocal (core * (1/s)) rounds twice and differs from the quotient in the last place for most s.  One obligation per true division
+    by the scalar operand (OK) and per multiplication by its reciprocal (violation)."""
+    obs = []
+    if fn_node is None:
+        f = model.func("_tt_base.TT.__truediv__")
+        fn_node, scalar = f.node, f.params()[1]
+        loc = lambda n: model.where(f, n)
+        short = f.short
+    else:
+        scalar = [a.arg for a in fn_node.args.args][1]
+        loc = lambda n: where
+        short = "fixture"
+    recip = _recip_exprs(fn_node, scalar)
+    c = 0
+    for n in ast.walk(fn_node):
+        if isinstance(n, ast.BinOp) and isinstance(n.op, ast.Div) and isinstance(n.right, ast.Name) and n.right.id == scalar:
+            obs.append(Ob("EXACT-DIV", f"{short}:EXACT-DIV:div:{c}", OK, loc(n), norm(n), "one true division by the scalar operand"))
+            c += 1
+        if (isinstance(n, ast.BinOp) and isinstance(n.op, ast.Mult) and (recip(n.left) or recip(n.right))) or \
+                (isinstance(n, ast.AugAssign) and isinstance(n.op, ast.Mult) and recip(n.value)):
+            obs.append(Ob("EXACT-DIV", f"{short}:EXACT-DIV:recip:{c}", VIOLATED, loc(n), norm(n),
+                          f"{short}: `{norm(n)[:80]}` multiplies by the reciprocal of the scalar `{scalar}` instead of dividing by it: two roundings instead of "
+                          "one, so x / s is no longer the correctly rounded quotient (e.g. s = 3, 10, 49: the last place of most entries differs) - "
+                          "the property states that dividing by a scalar is exact"))
+            c += 1
+    return obs
+
+
+_RECIP_FIXTURE = """
+def p(self, other):
+    cores_new = self.cores.copy()
+    inv = 1 / other
+    cores_new[0] = cores_new[0] * inv
+    return cores_new
+
+def q(self, other):
+    cores_new = self.cores.copy()
+    cores_new[0] = cores_new[0] / other
+    return cores_new
+"""
+
+
 def check(model: Model, tier: str):
     from ..e5 import obligations as e5ob
     from ..e5.slicetype import type_body
     obs = rule_routing(model)
+    obs += rule_recip(model)
+    fx = ast.parse(_RECIP_FIXTURE)
+    bad = rule_recip(model, fx.body[0], "ttsa/props/c13.py")
+    good = rule_recip(model, fx.body[1], "ttsa/props/c13.py")
+    okfx = any(o.status == VIOLATED for o in bad) and good and all(o.status == OK for o in good)
+    obs.append(Ob("EXACT-DIV", "fixture:EXACT-DIV:positive-example", OK if okfx else ERROR, "ttsa/props/c13.py", "_RECIP_FIXTURE",
+                  "the built-in positive example is flagged and its dividing twin is not" if okfx else "the EXACT-DIV rule no longer recognises its positive example"))
     obs += e5ob.for_property(model, "C13", tier)
     obs += type_body(model, "_division.amen_divide")
     obs += rule_defattr(model, "torchtt._division.LinearOp")
@@ -126,6 +199,8 @@ def check(model: Model, tier: str):
     obs += rule_zero_norm(model, "_division.amen_divide")
     from ..normguard import rule_enrich_width
     obs += rule_enrich_width(model, "_division.amen_divide")
+    from ..normguard import rule_scale_free
+    obs += rule_scale_free(model, "_division.amen_divide")
     fs = [model.func(a) for a in ANCHORS]
     exc = {("_division.amen_divide", "sig:=binop | =call:datetime.datetime.now"): "verbose timing only", ("_division.amen_divide", "sig:=binop | =call:datetime.datetime.now"): "verbose timing only",
            ("_division.amen_divide", "sig:=binop | =call:datetime.datetime.now"): "verbose timing only", ("_division.amen_divide", "sig:for:range(_)"): "read only in the verbose report after a zero-sweep run",
